@@ -56,7 +56,7 @@ func prove(args []string) {
 	}
 	fail := 0
 	for _, bc := range e.SortedContracts() {
-		key := bc.Pkg.PkgPath + "." + bc.FC.Key()
+		key := bc.KeyString()
 		if *only != "" && !strings.Contains(key, *only) {
 			continue
 		}
